@@ -44,7 +44,7 @@ Lemma add_epoch_step : forall h t (pre : epochs_st) k e,
   below k pre -> ep_id e = k -> ep_start e <> zero_time ->
   add_epoch h t (Some (map (rb h) pre)) e = Some (map (rb h) (pre ++ [(k, e)])).
 Proof.
-  intros h t pre k e Hb Hid Hne. unfold add_epoch.
+  intros h t pre k e Hb Hid Hne. unfold add_epoch, add_epoch_r, start_rewritten.
   pose proof (below_map_rb h k pre Hb) as Hb'.
   rewrite Hid, mem_get, (get_below _ _ Hb').
   apply Z.eqb_neq in Hne. rewrite Hne. rewrite (ins_below _ _ _ Hb').
@@ -81,7 +81,7 @@ Qed.
 Lemma epochs_init_export : forall empty h t s, wf_epochs empty s ->
   init_epochs EpValNonneg empty h t (export_epochs s) = Some (map (rb h) s).
 Proof.
-  intros empty h t s W. unfold init_epochs. rewrite (epochs_gen_valid_export empty s W).
+  intros empty h t s W. unfold init_epochs, init_epochs_r. rewrite (epochs_gen_valid_export empty s W). fold add_epoch.
   destruct W as [Hs Hk Hst _]. unfold export_epochs.
   exact (init_epochs_fold h t s [] Hs Hk Hst).
 Qed.
@@ -640,14 +640,14 @@ Qed.
     heights re-based to [h]; and the imported state agrees with the original up to the exception
     list of the tree's genesis code ([stale_ok] / [reset_ok] say whether that list contains the two
     defect exceptions). *)
-Theorem app_roundtrip : forall c F env h t s, c_ep_val c = EpValNonneg -> wf_app F env s ->
+Theorem app_roundtrip : forall c F env h t s, c_ep_val c = EpValNonneg -> c_ep_start c = EpStZeroOnly -> wf_app F env s ->
   exists g s',
     export_app env s = Some g /\
     init_app c F env (tf_bankmd (a_tf s)) h t g = Some s' /\
     export_app env s' = Some (rebase_gen h g) /\
     state_equiv (negb (match c_rid c with RidLastPlus1 => true | _ => false end)) (negb (c_tf_keeps_bank_md c)) env h t s s'.
 Proof.
-  intros c F env h t s Hep [Wsu We Wo Wt Wd Wv Wenv Wjson].
+  intros c F env h t s Hep Hst [Wsu We Wo Wt Wd Wv Wenv Wjson].
   destruct (a_sudo s) as [su|] eqn:Esu; [|congruence].
   destruct (tf_roundtrip c F _ Wt) as (gt & Hgt & tf' & Htf' & Hgt' & Htp & Htd & Htc & Hta & Hti & Htm).
   destruct (epochs_roundtrip _ h t _ We) as (e' & He' & Hee & Heq).
@@ -658,7 +658,7 @@ Proof.
   - unfold export_app. rewrite Esu, Hgt. cbn [export_sudo]. reflexivity.
   - split.
     + unfold init_app. cbn [g_epochs g_tf g_devgas g_evm g_sudo g_infl g_oracle].
-      unfold init_epochs_mod. rewrite Hep, He', Htf', (devgas_roundtrip F _ Wd), Hev', (json_oracle_gen_id F _ Wjson). reflexivity.
+      unfold init_epochs in He'. unfold init_epochs_mod_r. rewrite Hep, Hst, He', Htf', (devgas_roundtrip F _ Wd), Hev', (json_oracle_gen_id F _ Wjson). reflexivity.
     + split.
       * unfold export_app. cbn [a_sudo a_tf a_infl a_epochs a_oracle a_devgas a_evm init_sudo export_sudo].
         rewrite Hgt'. unfold rebase_gen. cbn [g_sudo g_infl g_epochs g_oracle g_tf g_devgas g_evm].
@@ -775,7 +775,7 @@ Proof. apply wf_appb_sound. vm_compute. reflexivity. Qed.
 
 (** … and on it the round trip really drops / re-bases what the exception list says (and nothing else). *)
 Example app_roundtrip_nonvacuous :
-  let c := {| c_rid := RidLastPlus1; c_tf_keeps_bank_md := true; c_pair_json_id := true; c_dg_upd := DgUpdKeep; c_ep_val := EpValNonneg; c_ep_swallow := true |} in
+  let c := {| c_rid := RidLastPlus1; c_tf_keeps_bank_md := true; c_pair_json_id := true; c_dg_upd := DgUpdKeep; c_ep_val := EpValNonneg; c_ep_swallow := true; c_ep_start := EpStZeroOnly |} in
   exists g s', export_app ex_env ex_state = Some g /\
     init_app c ex_funs ex_env (tf_bankmd (a_tf ex_state)) 100%Z 2000%Z g = Some s' /\
     s' <> ex_state /\
@@ -791,16 +791,21 @@ Lemma cfg_ok_parts : forall c, cfg_ok c = true ->
   match c_rid c with RidLastPlus1 => c_tf_keeps_bank_md c && c_pair_json_id c | _ => false end = true /\
   c_dg_upd c = DgUpdKeep /\ c_ep_val c = EpValNonneg.
 Proof.
-  intros c H. unfold cfg_ok in H. apply andb_true_iff in H. destruct H as [H H3]. apply andb_true_iff in H. destruct H as [H1 H2].
+  intros c H. unfold cfg_ok in H. apply andb_true_iff in H. destruct H as [H _]. apply andb_true_iff in H. destruct H as [H H3]. apply andb_true_iff in H. destruct H as [H1 H2].
   split; [exact H1|]. split; [destruct (c_dg_upd c); congruence | destruct (c_ep_val c); congruence].
 Qed.
 
+Lemma cfg_ok_start : forall c, cfg_ok c = true -> c_ep_start c = EpStZeroOnly.
+Proof.
+  intros c H. unfold cfg_ok in H. apply andb_true_iff in H. destruct H as [_ H]. destruct (c_ep_start c); congruence.
+Qed.
+
 (* ================================================================== corollaries exported by Property.v *)
-Lemma export_roundtrip : forall c F env h t s, c_ep_val c = EpValNonneg -> wf_app F env s ->
+Lemma export_roundtrip : forall c F env h t s, c_ep_val c = EpValNonneg -> c_ep_start c = EpStZeroOnly -> wf_app F env s ->
   exists g s' g', export_app env s = Some g /\ init_app c F env (tf_bankmd (a_tf s)) h t g = Some s' /\
                   export_app env s' = Some g' /\ gen_equiv h g g'.
 Proof.
-  intros c F env h t s Hep W. destruct (app_roundtrip c F env h t s Hep W) as (g & s' & H1 & H2 & H3 & _).
+  intros c F env h t s Hep Hst W. destruct (app_roundtrip c F env h t s Hep Hst W) as (g & s' & H1 & H2 & H3 & _).
   exists g, s', (rebase_gen h g). split; [exact H1|]. split; [exact H2|]. split; [exact H3|]. reflexivity.
 Qed.
 
@@ -809,7 +814,7 @@ Lemma state_equiv_strict : forall c F env h t s, cfg_ok c = true -> wf_app F env
                state_equiv false false env h t s s'.
 Proof.
   intros c F env h t s Hc W.
-  destruct (app_roundtrip c F env h t s (proj2 (proj2 (cfg_ok_parts c Hc))) W) as (g & s' & H1 & H2 & _ & H4).
+  destruct (app_roundtrip c F env h t s (proj2 (proj2 (cfg_ok_parts c Hc))) (cfg_ok_start c Hc) W) as (g & s' & H1 & H2 & _ & H4).
   exists g, s'. apply cfg_ok_parts in Hc. destruct Hc as [Hc _]. destruct (c_rid c); try discriminate.
   apply andb_true_iff in Hc. destruct Hc as [Hc _]. rewrite Hc in H4. cbn in H4.
   split; [exact H1|]. split; [exact H2|]. exact H4.
@@ -875,12 +880,12 @@ Lemma roundtrip_twice : forall c F env h t h2 t2 s, (0 <= h)%Z -> cfg_ok c = tru
 Proof.
   intros c F env h t h2 t2 s Hh Hc W.
   pose proof (proj2 (proj2 (cfg_ok_parts c Hc))) as Hep.
-  destruct (app_roundtrip c F env h t s Hep W) as (g & s' & H1 & H2 & H3 & H4).
+  destruct (app_roundtrip c F env h t s Hep (cfg_ok_start c Hc) W) as (g & s' & H1 & H2 & H3 & H4).
   assert (H4' : state_equiv false false env h t s s').
   { apply cfg_ok_parts in Hc. destruct Hc as [Hc _]. destruct (c_rid c); try discriminate.
     apply andb_true_iff in Hc. destruct Hc as [Hc _]. rewrite Hc in H4. exact H4. }
   pose proof (wf_after_import F env h t s s' Hh W H4') as W'.
-  destruct (app_roundtrip c F env h2 t2 s' Hep W') as (g2 & s'' & K1 & K2 & K3 & _).
+  destruct (app_roundtrip c F env h2 t2 s' Hep (cfg_ok_start c Hc) W') as (g2 & s'' & K1 & K2 & K3 & _).
   rewrite H3 in K1. inversion K1; subst g2.
   exists g, s', s'', (rebase_gen h2 (rebase_gen h g)). repeat (split; [assumption|]).
   unfold gen_equiv, rebase_gen. cbn. f_equal. rewrite map_map. reflexivity.
